@@ -46,7 +46,7 @@ def run_one(s, strict, attribute):
     t0 = time.time()
     from harness import watchdog
     try:
-        r = watchdog.call(lambda: sf.encoder(s, strict=strict, attribute=attribute), 20)
+        r = watchdog.call(lambda: sf.encoder(s, strict=strict, attribute=attribute), 45)
         res = ('ok',)
         if attribute and not (isinstance(r, tuple) and len(r) == 2 and isinstance(r[0], str)):
             res = ('bad-result', repr(r)[:100])
@@ -56,7 +56,7 @@ def run_one(s, strict, attribute):
         res = ('EncoderError',)
     except watchdog.Hang:
         watchdog.note_hang()
-        return ('slow', 'no result after 20 s')
+        return ('slow', 'no result after 45 s')
     except BaseException as e:
         res = ('escaped', type(e).__name__, str(e)[:120])
     if time.time() - t0 > 60:
